@@ -201,7 +201,8 @@ FeedMany(b, k) ==
     /\ inp' = Append(inp, <<b, k>>)
     /\ lbl' = <<"b", b, k>>
 
-Next == (\E b \in 0..255 : Feed(b)) \/ (\E b \in 0..255, k \in Runs : FeedMany(b, k))
+Next == (\E b \in Choices(st, Pos) : Feed(b))
+        \/ (\E b \in Choices(st, 0) \ {0}, k \in Runs : FeedMany(b, k))
 
 Spec == Init /\ [][Next]_vars
 
